@@ -526,14 +526,14 @@ def main():
         args.severity = _log_option_source(
             parser.get_default("severity"),
             args.severity,
-            ini_options.get("level"),
+            int(ini_options.get("level") or 0) or None,
             "severity level",
         )
 
         args.confidence = _log_option_source(
             parser.get_default("confidence"),
             args.confidence,
-            ini_options.get("confidence"),
+            int(ini_options.get("confidence") or 0) or None,
             "confidence level",
         )
 
